@@ -11,6 +11,8 @@ Line-protocol driver for the C12 model (merge of partial query results above the
   result <id> all=<0|1> limit=<n> sel=<fn>:<field>,.. ord=<fn>:<field>:<0|1>,.. [hav=<op>:<thr>]
   plan-shape <live> <n>                flow.BuildPhysicalPlan: number of targets / executors / distinctness
   route <n> <shard>:<hash> ...         row routing (see Routing below)
+  tm-add <id> | tm-remove <id>         TaskManager.AddTask / RemoveTask for context `id`'s request
+  tm-recv <id> nf|er|bad|ok ..         TaskManager.Receive: `delivered <state>` or `dropped <state>`
   families <id>:<ts>:<fam> ...         the family iterator over one shard group (rows in batch order;
                                        fam = CalcFamilyTime(ts), computed by the real calculator)
   lc-new <k> <holes>                   a leaf's grouping context for k group-by keys; holes = `-` or
@@ -29,6 +31,7 @@ import LinVerif.Util.Proto
 import LinVerif.Model.RootMerge
 import LinVerif.Model.LeafCollect
 import LinVerif.Model.RowRoute
+import LinVerif.Model.TaskMgr
 import LinVerif.Generated.C12
 
 namespace LinVerif.Driver.C12
@@ -38,6 +41,7 @@ structure DSt where
   ctxs : List (Nat × Ctx) := []
   tags : List String := []      -- interned group tags
   names : List String := []     -- interned field names
+  tmReg : List Nat := []                     -- context ids registered with the task manager
   lc : Option LeafCollect.G := none          -- the leaf grouping context of the current case
   lcHoles : List (Nat × Nat) := []           -- (key index, tag value id) without a dictionary value
 
@@ -307,6 +311,41 @@ def doPlan (st : DSt) (all : Bool) (selS schemaS : String) : DSt × String :=
     | .ok specs => (st2, " ".intercalate ("specs" :: (sortStr (specs.map (showSpec st2))).map Prod.snd))
   | _, _ => (st, "bad-op")
 
+/-! the task manager in front of a context (Model/TaskMgr.lean) -/
+
+def parseResp (st : DSt) (kind : String) (rest : List String) : Option (DSt × Resp) :=
+  match kind, rest with
+  | "nf", [] => some (st, .notFound)
+  | "er", [] => some (st, .error)
+  | "bad", [] => some (st, .bad)
+  | "ok", cap :: toks =>
+    match cap.toNat?, parsePayload st toks with
+    | some cap, some (st', p) => some (st', .ok { cap := cap, specs := p.specs, series := p.series })
+    | _, _ => none
+  | _, _ => none
+
+def stepTm (st : DSt) (ws : List String) : DSt × String :=
+  match ws with
+  | ["tm-add", id] =>
+    match id.toNat? with
+    | some id => ({ st with tmReg := id :: st.tmReg.filter (· != id) }, "ok")
+    | none => (st, "bad-op")
+  | ["tm-remove", id] =>
+    match id.toNat? with
+    | some id => ({ st with tmReg := st.tmReg.filter (· != id) }, "ok")
+    | none => (st, "bad-op")
+  | "tm-recv" :: id :: kind :: rest =>
+    match id.toNat? with
+    | none => (st, "bad-op")
+    | some id =>
+      match getCtx st id, parseResp st kind rest with
+      | some c, some (st', r) =>
+        let s0 : TaskMgr.S := { registered := st.tmReg.contains id, ctx := c, dropped := 0 }
+        let s1 := s0.step Generated.C12.completeKeepsError variant (.recv r)
+        (putCtx st' id s1.ctx, (if s1.dropped == 0 then "delivered " else "dropped ") ++ showState s1.ctx)
+      | _, _ => (st, "bad-op")
+  | _ => (st, "bad-op")
+
 /-! the leaf's grouping-collect protocol (Model/LeafCollect.lean) -/
 
 /-- which condition guards the wait in waitCollectGroupingTagsCompleted, from the regenerated fact -/
@@ -469,7 +508,7 @@ def step (st : DSt) (ws : List String) : DSt × String :=
     | _, _ => (st, "bad-op")
   | "route" :: rest => (st, doRoute rest)
   | "families" :: rest => (st, doFamilies rest)
-  | w :: _ => if w.startsWith "lc-" then stepLc st ws else (st, "bad-op")
+  | w :: _ => if w.startsWith "lc-" then stepLc st ws else if w.startsWith "tm-" then stepTm st ws else (st, "bad-op")
   | _ => (st, "bad-op")
 
 def main (_args : List String) : IO Unit := Proto.runLoop ({} : DSt) step
